@@ -1204,6 +1204,8 @@ impl Gen {
             (Some(qv), 4) => qv / 2,
             _ => 0,
         };
+        // a swap of nothing, with and without a limit
+        let (amt, limit) = if rng.chance(1, 40) { (0, if rng.chance(2, 3) { rng.range128(1, 10) } else { 0 }) } else { (amt, limit) };
         let op = if input {
             Op::SwapInput { vamm: v, dir, quote: amt, limit, can_go_over: rng.chance(1, 4) }
         } else {
